@@ -62,6 +62,12 @@ func suiteExport(c *ctx) {
 		ss := []Stmt{tbl("users", col("id", "int(11)", oNotNull, oPk)), tbl("orders", col("id", "int(11)", oNotNull, oPk), col("buyer", "int(11)"), col("seller", "int(11)"), col("self", "int(11)")),
 			fk("orders", "fk_buyer", "buyer", "users", "id"), fk("orders", "fk_seller", "seller", "users", "id"), fk("orders", "fk_self", "self", "orders", "id")}
 		emit("w-F17-two-fks-same-tables", runCfg{dialect: "mysql"}, ss, nil)
+		// C14-a / C14-c: two tables referencing the same table, all selected / each one alone
+		ss4 := []Stmt{tbl("users", col("id", "int(11)", oNotNull, oPk)), tbl("orders", col("id", "int(11)", oNotNull, oPk), col("user_id", "int(11)")),
+			tbl("reviews", col("id", "int(11)", oNotNull, oPk), col("author_id", "int(11)")),
+			fk("orders", "fk_users_orders", "user_id", "users", "id"), fk("reviews", "fk_users_reviews", "author_id", "users", "id")}
+		emit("w-two-tables-one-target", runCfg{dialect: "mysql"}, ss4, nil)
+		emit("w-two-tables-one-target-selected", runCfg{dialect: "mysql", lower: true}, ss4, []string{"reviews", "orders"})
 		// a key created and dropped again
 		ss2 := append(append([]Stmt{}, ss...), Stmt{Kind: "dropFk", T: "orders", A: "fk_buyer"}, Stmt{Kind: "dropFk", T: "orders", A: "fk_seller"})
 		emit("w-F27-dropped-fk-mark", runCfg{dialect: "mysql"}, ss2, nil)
